@@ -585,9 +585,10 @@ impl SequenceMatcher {
                 // This maintains the two-pointer invariant (b_ptr points to the last B that could match)
                 b_ptr = latest_b_ptr;
             } else {
-                // B is not before A (ts_b >= ts_a), advance b_ptr to find earlier B events
-                // Since indices are sorted by timestamp, we need to advance b_ptr
-                b_ptr += 1;
+                // B is not before A (ts_b >= ts_a). b_ptr only ever points at the first B or at a B
+                // that precedes an earlier A, so no B precedes this A: skip it and keep b_ptr for
+                // the later A events (advancing b_ptr here would lose their matches)
+                a_ptr += 1;
             }
         }
 
